@@ -300,9 +300,12 @@ class SpyPathIO(aioftp.MemoryPathIO):
     fail_at = None  # 1-based index of the backend call that fails
     fail_repeat = False
     log = []
+    latency = 0  # virtual ms every backend call takes (0: the call never suspends, like MemoryPathIO; > 0: like AsyncPathIO)
+    lat_ops = None  # None = every call, else the set of call names that take `latency`
+    close_done = []  # loop time at which each close() had completed
 
     @classmethod
-    def reset(cls, fail_at=None, fail_repeat=False):
+    def reset(cls, fail_at=None, fail_repeat=False, latency=0, lat_ops=None):
         cls.calls = 0
         cls.paths = []
         cls.opened = []
@@ -310,6 +313,14 @@ class SpyPathIO(aioftp.MemoryPathIO):
         cls.fail_at = fail_at
         cls.fail_repeat = fail_repeat
         cls.log = []
+        cls.latency = latency
+        cls.lat_ops = lat_ops
+        cls.close_done = []
+
+    @classmethod
+    async def _lat(cls, name):
+        if cls.latency and (cls.lat_ops is None or name in cls.lat_ops):
+            await asyncio.sleep(cls.latency)
 
     @classmethod
     def _tick(cls, name, path=None):
@@ -337,6 +348,7 @@ def _wrap_spy():
         @universal_exception
         async def method(self, *args, **kwargs):
             SpyPathIO._tick(name, args[0] if (has_path and args) else None)
+            await SpyPathIO._lat(name)
             return await inner(self, *args, **kwargs)
 
         method.__name__ = name
@@ -351,6 +363,7 @@ def _wrap_spy():
     async def rename(self, source, destination):
         SpyPathIO._tick("rename", source)
         SpyPathIO.paths.append(destination)
+        await SpyPathIO._lat("rename")
         return await rename_inner(self, source, destination)
 
     SpyPathIO.rename = rename
@@ -360,6 +373,7 @@ def _wrap_spy():
     @universal_exception
     async def _open(self, path, mode="rb", *args, **kwargs):
         SpyPathIO._tick("open", path)
+        await SpyPathIO._lat("open")
         f = await open_inner(self, path, mode, *args, **kwargs)
         SpyPathIO.opened.append(path)
         return f
@@ -373,6 +387,7 @@ def _wrap_spy():
             @universal_exception
             async def method(self, file, *args, **kwargs):
                 SpyPathIO._tick(name)
+                await SpyPathIO._lat(name)
                 return await inner(self, file, *args, **kwargs)
 
             return method
@@ -385,7 +400,13 @@ def _wrap_spy():
     async def close(self, file):
         SpyPathIO.closed.append(1)
         SpyPathIO._tick("close")
-        return await close_inner(self, file)
+        await SpyPathIO._lat("close")
+        r = await close_inner(self, file)
+        try:
+            SpyPathIO.close_done.append(asyncio.get_running_loop().time())
+        except RuntimeError:
+            SpyPathIO.close_done.append(None)
+        return r
 
     SpyPathIO.close = close
 
